@@ -610,6 +610,10 @@ pub fn sched_curated(g: &Geo) -> Vec<(&'static str, &'static str, Vec<Op>, Vec<V
         // two first writers of one fresh cluster while a flush pass starts (need_flush is cleared at its start)
         ("two-first-writers-vs-flush", "libfmt", vec![w(tb, bs, 0x51)], vec![vec![w(0, bs, 0x11)], vec![w(cs - bs, bs, 0x12)], vec![Op::Flush]]),
         ("first-writer-vs-flush-vs-reader", "data", vec![w(tb, bs, 0x51)], vec![vec![w(4 * cs, bs, 0x11)], vec![Op::Flush], vec![r(4 * cs, cs)]]),
+        // something holds the slice's shared lock across a backend request (a reader of a mapped cluster, a flush
+        // writing the slice back) while two first writers of one other, unmapped cluster of that slice queue up
+        ("reader-holds-slice-vs-two-first-writers", "libfmt", vec![w(0, cs, 0x51), Op::Flush], vec![vec![r(0, cs)], vec![w(cs, bs, 0x11)], vec![w(2 * cs - bs, bs, 0x12)]]),
+        ("flush-holds-slice-vs-two-first-writers", "libfmt", vec![w(0, cs, 0x51)], vec![vec![Op::Flush], vec![w(cs, bs, 0x11)], vec![w(2 * cs - bs, bs, 0x12)]]),
         // shrink vs writers
         ("shrink-vs-writers", "libfmt", vec![w(0, cs, 0x51)], vec![vec![Op::Shrink], vec![w(cs, cs, 0x11)], vec![w(tb, bs, 0x12)]]),
         // write dirtying metadata while a flush is in progress, then nothing else (C18)
@@ -634,6 +638,9 @@ pub fn sched_curated(g: &Geo) -> Vec<(&'static str, &'static str, Vec<Op>, Vec<V
         ("two-flushes", "libfmt", vec![w(0, cs, 0x51), w(tb, bs, 0x52)], vec![vec![Op::Flush], vec![Op::Flush]]),
         // COW of a backing cluster racing a read and another sub-write of the same cluster
         ("cow-backing-two-writers", "backing", vec![], vec![vec![w(0, bs, 0x11)], vec![w(cs - bs, bs, 0x12)], vec![r(0, cs)]]),
+        // a two-cluster write has looked its first cluster up ("from the backing file") and waits for the second
+        // cluster's L2 slice; meanwhile another write does the COW of the first cluster and a discard unmaps it again
+        ("cow-stale-lookup-vs-cow-vs-discard", "backing", vec![], vec![vec![w(sl - cs, 2 * cs, 0x11)], vec![w(sl - cs, bs, 0x12)], vec![Op::Discard { off: sl - cs, len: cs }]]),
         ("cow-compressed-two-writers", "compressed", vec![], vec![vec![w(0, bs, 0x11)], vec![w(cs - bs, bs, 0x12)], vec![r(0, cs)]]),
     ];
     if sl >= tb {
@@ -1201,6 +1208,33 @@ pub fn crash_family(prop: &str) -> i32 {
             scen.push(j);
         }
     }
+    {
+        // slice sizes of the two caches differ: the key range of the slices below a top-table block is
+        // computed per cache (L1 index 33 / 65: beyond what the other cache's slice size would cover)
+        let w = |off: u64, len: u64, tag: u32| Op::Write { off, len: len as usize, tag };
+        for (l2b, rbb, tables, idx) in [(9u8, 10u8, 40u64, 33u64), (10, 9, 70, 65)] {
+            let gm = crate::extra::mixed_slice_geo(l2b, rbb, tables);
+            let (cs, tb) = (gm.cs(), gm.tb());
+            let alpha = vec![w(idx * tb, cs, 1), w((idx + 1) * tb + cs, cs, 2), w(cs, cs, 3), Op::Flush, Op::Sync];
+            let mut sc = SeqScenario::new(crate::extra::mixed_slice_image(&gm), gm.cfg_small(), gm.cfg_alt(), "small", alpha, oracles.clone());
+            sc.full_sweep = false;
+            let lim = BfsLimits { depth: if thorough { 4 } else { 3 }, max_states: 3_000_000, deadline: deadline_in(if thorough { 200 } else { 8 }) };
+            let st = bfs(&sc, &lim, &mut viol);
+            states += st.states;
+            trans += st.transitions;
+            windows += st.counters[1];
+            images_n += st.counters[2];
+            distinct += st.counters[3];
+            inexhaustive += st.counters[4];
+            if st.capped || st.depth_completed < st.depth_target {
+                all_complete = false;
+            }
+            let mut j = stats_json(&crate::hist::Scenario::name(&sc), &st);
+            j["crash_images"] = json!(st.counters[2]);
+            j["distinct_images_checked"] = json!(st.counters[3]);
+            scen.push(j);
+        }
+    }
     run.add_all(viol);
     // crash states of concurrent histories (C04 quantifies over schedules too)
     let mut conc = json!(null);
@@ -1333,6 +1367,10 @@ pub fn faulted_concurrent_part(thorough: bool, prop: &str) -> (Vec<Violation>, V
     // three loaders of one L2 slice, two of the loads fail (pairs of failing requests, see below)
     let triple_cold = scn.len();
     scn.push(("cold-read||cold-read||cold-read", cold.clone(), vec![vec![r(0, bs)], vec![r(bs, bs)], vec![r(cs, bs)]]));
+    // a two-cluster allocating write one of whose clusters cannot be zeroed (hole punch and its fallback
+    // fail: pairs of failing requests), then an acknowledged write into the other cluster
+    let batch_then_sub = scn.len();
+    scn.push(("batch-write;sub-write||read", warm.clone(), vec![vec![w(4 * cs, 2 * cs, 0x11), w(4 * cs, bs, 0x12)], vec![r(0, bs)]]));
     if prop == "C04" {
         // crash states of a flush that is retried after one of its requests failed, with requests
         // completing in any order (two dirty slices of an L2 table that is on disk already)
@@ -1361,7 +1399,7 @@ pub fn faulted_concurrent_part(thorough: bool, prop: &str) -> (Vec<Violation>, V
         };
         for k in 0..(n + 2).min(48) {
             jobs.push((si, k, None));
-            if prop != "C04" && si == triple_cold {
+            if prop != "C04" && (si == triple_cold || si == batch_then_sub) {
                 for k2 in k + 1..(n + 2).min(48) {
                     jobs.push((si, k, Some(k2)));
                 }
@@ -1421,7 +1459,7 @@ pub fn faulted_concurrent_part(thorough: bool, prop: &str) -> (Vec<Violation>, V
         viols.extend(v);
     }
     (viols, json!({"scenarios": scenarios.len(), "fault_positions": jobs.len(), "executions": execs,
-        "rule": "for each scenario of two concurrent calls and each position k: the k-th request submitted in the concurrent phase fails (for the three cold readers of one slice also every pair of requests), every schedule within the deviation bound; the backend heals; end state judged (no panic/deadlock, per-block linearizability with failed calls optional, content equal after flush + reopen)"}))
+        "rule": "for each scenario of two concurrent calls and each position k: the k-th request submitted in the concurrent phase fails (for the three cold readers of one slice and for the two-cluster write also every pair of requests), every schedule within the deviation bound; the backend heals; end state judged (no panic/deadlock, per-block linearizability with failed calls optional, content equal after flush + reopen)"}))
 }
 
 /// every history of the fault alphabet x every single request failing, heal, flush until Ok,
